@@ -5,6 +5,7 @@ import (
 	"encoding/hex"
 	"fmt"
 	"io"
+	"net"
 	"os"
 	"path/filepath"
 	"strings"
@@ -132,7 +133,7 @@ func c11Expected(c c11Case, stored []byte) (views [][]byte, labels []string, may
 				vs = append(vs, mask3k3y(vs[0]), mask3k3y(vs[1]))
 			}
 			return vs, []string{"adjacent key"}, false
-		case "redkey", "adjacent-is-dir+redkey":
+		case "redkey", "adjacent-is-dir+redkey", "adjacent-is-loop+redkey", "adjacent-is-socket+redkey":
 			vs := dec(c11KeyR)
 			if wm != "none" {
 				vs = append(vs, mask3k3y(vs[0]), mask3k3y(vs[1]))
@@ -194,6 +195,22 @@ func c11Build(c c11Case) (root, rel string, err error) {
 		err = os.MkdirAll(filepath.Join(dir, c.baseName()+".dkey"), 0o755)
 	case "adjacent-is-dir+redkey":
 		if err = os.MkdirAll(filepath.Join(dir, c.baseName()+".dkey"), 0o755); err == nil {
+			err = writeKey(rk, hexKey(c11KeyR))
+		}
+	case "adjacent-is-loop", "adjacent-is-loop+redkey", "adjacent-is-socket", "adjacent-is-socket+redkey":
+		// other things that can be called like the key file without being one: a symbolic link that resolves to
+		// nothing (itself), a unix socket
+		kp := filepath.Join(dir, c.baseName()+".dkey")
+		if strings.Contains(c.Key, "loop") {
+			err = os.Symlink(c.baseName()+".dkey", kp)
+		} else {
+			var l net.Listener
+			if l, err = net.Listen("unix", kp); err == nil {
+				l.(*net.UnixListener).SetUnlinkOnClose(false)
+				l.Close()
+			}
+		}
+		if err == nil && strings.HasSuffix(c.Key, "+redkey") {
 			err = writeKey(rk, hexKey(c11KeyR))
 		}
 	case "redkey-is-file":
@@ -490,7 +507,7 @@ func c11KeyDirs(yield func(c11Case) bool) {
 	for _, ext := range []string{".iso", ".bin"} {
 		for _, wm := range []string{"none", "enc", "dec"} {
 			for _, ln := range []int{0x1070, 8 * 2048} {
-				for _, key := range []string{"adjacent-is-dir", "adjacent-is-dir+redkey"} {
+				for _, key := range []string{"adjacent-is-dir", "adjacent-is-dir+redkey", "adjacent-is-loop", "adjacent-is-loop+redkey", "adjacent-is-socket", "adjacent-is-socket+redkey"} {
 					for _, depth := range []int{0, 1} {
 						seed++
 						if !yield(c11Case{DirName: "PS3ISO", Ext: ext, Key: key, Depth: depth, Watermark: wm, Length: ln, Seed: seed*31 + 7, Net: seed%2 == 0}) {
@@ -506,7 +523,7 @@ func c11KeyDirs(yield func(c11Case) bool) {
 func TestC11Product(t *testing.T) {
 	st := hx.NewStats("C11", "product")
 	if true {
-		st.MarkExhaustive("full product: 5 directory names x 4 extensions x 3 depths x 7 key layouts (incl. a regular file called REDKEY) x 3 watermarks x 6 file lengths x 2 prefixes (library or network route per case), plus 48 cases with a 255-byte image name and 48 with a directory named like the key file")
+		st.MarkExhaustive("full product: 5 directory names x 4 extensions x 3 depths x 7 key layouts (incl. a regular file called REDKEY) x 3 watermarks x 6 file lengths x 2 prefixes (library or network route per case), plus 48 cases with a 255-byte image name and 144 with a directory, a self-referencing link or a socket named like the key file")
 	} else {
 		st.MarkExhaustive("all combinations of the precedence-relevant factors (key layout x watermark x {PS3ISO/.iso, other} x {0x1070, larger}); the remaining product is sampled 1/4")
 	}
